@@ -49,7 +49,7 @@ ASSUMPTIONS = [
     "scenarios are deadlock-free by construction: every pre-allocated qubit is freed before the first wait, every "
     "request is awaited before its subroutine ends",
 ]
-PROBES = ["early-response", "deferred-busy-qubit", "two-requests-one-key", "cross-key-reorder", "wait-polled",
+PROBES = ["sdk-form", "early-response", "deferred-busy-qubit", "two-requests-one-key", "cross-key-reorder", "wait-polled",
           "wait_any", "wait_single", "create-role", "recv-role", "type-M", "type-K", "legacy-tuples", "qlink-objects",
           "two-apps-concurrent", "retry-fired"]
 
@@ -183,10 +183,156 @@ def expected_slice(d: Dict[str, Any]) -> List[int]:
     return [1, job["create_id"], out, basis.value, dflag, rec["seq"], purpose, remote, good, rec["bell"].value]
 
 
+def run_sdk(ch: Choices, opts: Dict[str, Any], calm: bool) -> Dict[str, Any]:
+    """Second form: two real nodes, each a real SDK host + controller; the requests come from EPRSocket calls."""
+    import traceback
+
+    from netqasm.sdk.epr_socket import EPRSocket
+
+    from sim.models.epr_ref import EprMonitor
+    from sim.stubs.connection import SimConnection, SimNetworkInfo
+
+    SimNetworkInfo.reset()
+    trace = Trace()
+    mode = "time" if calm else ch.pick(["mix", "time"])
+    sched = Sched(ch, trace, mode=mode, max_cost=0 if calm else 40)
+    legacy = ch.flag(1, 3, "legacy")
+    link = FakeLink(ch, sched, trace, legacy=legacy, max_gen_delay=0 if calm else 400, max_deliver_delay=0 if calm else 400)
+    nodes = [ControllerNode(f"n{i}", i, TraceQMem(lambda q: 0), lambda: sched.now, flavour="vanilla", link=link) for i in (0, 1)]
+    faults: Dict[str, int] = {}
+    probes: Dict[str, int] = {}
+
+    def bump(d, k, n=1):
+        d[k] = d.get(k, 0) + n
+
+    bump(probes, "sdk-form")
+    bump(probes, "legacy-tuples" if legacy else "qlink-objects")
+    SimNetworkInfo.node_ids.update({"n0": 0, "n1": 1})
+    SimNetworkInfo.app_nodes.update({"alice": "n0", "bob": "n1"})
+    n_socks = 1 + ch.draw(2, "nsocks")
+    # per socket: a sequence of requests (creator side, type, pairs); both hosts keep this order per socket
+    per_sock: List[List[tuple]] = []
+    for s_id in range(n_socks):
+        seq = []
+        tp_of: Dict[int, str] = {}
+        for _ in range(1 + ch.draw(2, "nreq")):
+            creator = ch.draw(2, "creator")
+            tp = tp_of.get(creator) or ("K" if ch.flag(1, 2, "tp") else "M")
+            tp_of[creator] = tp
+            seq.append((creator, tp, 1 + ch.draw(3, "np")))
+        per_sock.append(seq)
+
+    def interleave() -> List[tuple]:
+        idx = [0] * n_socks
+        out = []
+        while any(idx[i] < len(per_sock[i]) for i in range(n_socks)):
+            cands = [i for i in range(n_socks) if idx[i] < len(per_sock[i])]
+            i = cands[ch.draw(len(cands), "ilv")]
+            out.append((i,) + per_sock[i][idx[i]])
+            idx[i] += 1
+        return out
+
+    # both hosts follow one global order of the requests: with a blocking flush after each operation any other
+    # choice can make the two programs wait for each other (a property of the programs, not of the controller)
+    order = interleave()
+    plans = [order, list(order)]
+    flush_each = [ch.flag(1, 3, "fe"), ch.flag(1, 3, "fe")]
+    sample = {"form": "sdk", "sockets": n_socks, "plans": plans, "flush_after_each_op": flush_each, "legacy": legacy}
+    tail = lambda: [list(map(str, e)) for e in trace.events[-40:]]  # noqa: E731
+    mons = [EprMonitor(nodes[i], link, lambda k, i=i: bump(probes, k), tail) for i in (0, 1)]
+    state = {"done": 0}
+
+    def host(i: int):
+        me, peer = ("alice", "bob") if i == 0 else ("bob", "alice")
+        socks = [EPRSocket(peer, epr_socket_id=s, remote_epr_socket_id=s) for s in range(n_socks)]
+        conn = SimConnection(me, nodes[i], max_qubits=5, epr_sockets=socks)
+
+        def drain():
+            g = conn.drain()
+            while True:
+                try:
+                    y = next(g)
+                except StopIteration:
+                    return
+                except Violation:
+                    raise
+                except Exception as e:  # noqa: BLE001
+                    fr = traceback.extract_tb(e.__traceback__)[-1]
+                    raise Violation("controller", f"sdk-form|controller-fault|{type(e).__name__}|{fr.name}",
+                                    {"node": i, "error": str(e)[:300], **sample})
+                yield y
+
+        for (s_id, creator, tp, n) in plans[i]:
+            sk = socks[s_id]
+            try:
+                if tp == "K":
+                    qs = sk.create_keep(number=n) if creator == i else sk.recv_keep(number=n)
+                    for q in qs:
+                        q.measure()
+                else:
+                    if creator == i:
+                        sk.create_measure(number=n)
+                    else:
+                        sk.recv_measure(number=n)
+            except Violation:
+                raise
+            except Exception as e:  # noqa: BLE001
+                fr = traceback.extract_tb(e.__traceback__)[-1]
+                raise Violation("sdk", f"sdk-form|sdk-exception|{type(e).__name__}|{fr.name}", {"error": str(e)[:300], **sample})
+            trace.add("op", i, s_id, creator, tp, n)
+            if flush_each[i]:
+                conn.flush()
+                yield from drain()
+            yield None
+        conn.flush()
+        yield from drain()
+        state["done"] += 1
+
+    for i in (0, 1):
+        sched.spawn(f"host{i}", host(i), party=f"host{i}")
+    done = lambda: state["done"] == 2  # noqa: E731
+    for i in (0, 1):
+        sched.spawn(f"retry{i}", nodes[i].retry_task(done, ch, 150), party=f"ctrl{i}")
+
+    def on_error(task, e):
+        fr = traceback.extract_tb(e.__traceback__)[-1]
+        raise Violation("controller", f"sdk-form|fault-on-delivery|{type(e).__name__}|{fr.name}",
+                        {"task": task.name, "error": str(e)[:300], **sample})
+    sched.on_error = on_error
+    cap = 60000
+    while not done():
+        if sched.step() is None:
+            raise Violation("liveness", "liveness|deadlock|sdk-form", {"trace": tail(), **sample})
+        for m in mons:
+            m.check_step()
+        if sched.steps > cap:
+            raise Violation("liveness", "liveness|no-progress|sdk-form", {"trace": tail(), **sample})
+    link.stop()
+    for m in mons:
+        m.final()
+    for nd in nodes:
+        if nd.env.qmem.errors:
+            raise Violation("remap", "remap|memory|" + nd.env.qmem.errors[0].split(" ")[0], {"errors": nd.env.qmem.errors[:3], **sample})
+    rc = sum(nd.env.retry_count for nd in nodes)
+    if rc:
+        bump(probes, "retry-fired")
+        bump(faults, "retry-timer-fired", rc)
+    for k in ("early-response", "cross-key-reorder", "two-requests-one-key"):
+        if probes.get(k):
+            bump(faults, {"early-response": "response-before-request", "cross-key-reorder": "cross-key-reorder",
+                          "two-requests-one-key": "two-requests-outstanding-on-one-key"}[k], probes[k])
+    nontrivial = any(probes.get(k) for k in ("early-response", "two-requests-one-key", "cross-key-reorder"))
+    wd = hashlib.blake2b(repr(plans).encode(), digest_size=6).hexdigest()
+    return {"digest": trace.digest(), "fingerprint": sched.fingerprint() + wd, "nontrivial": bool(nontrivial),
+            "events": sched.steps, "sim_ns": sched.now, "faults": faults, "probes": probes, "calm": calm, "sample": sample}
+
+
 def run(ch: Choices, opts: Dict[str, Any]) -> Dict[str, Any]:
     reset_globals()
     trace = Trace()
     calm = ch.flag(1, 10, "calm")
+    if ch.flag(1, 4, "sdk-form"):
+        return run_sdk(ch, opts, calm)
     mode = "time" if calm or ch.flag(1, 2, "mode") else "mix"
     sched = Sched(ch, trace, mode=mode, max_cost=0 if calm else 40)
     qm = TraceQMem(lambda q: 0)
@@ -433,3 +579,5 @@ def _tail(trace: Trace, n: int = 50) -> List[Any]:
 
 def cleanup() -> None:
     reset_globals()
+    from sim.stubs.connection import SimNetworkInfo
+    SimNetworkInfo.reset()
